@@ -410,6 +410,97 @@ func propC19URL(t *rapid.T) {
 	statCase("C19", disq == 1, fmt.Sprintf("url|%s|u%v h%s p%v q%v f%v|%s", scheme, user != "", host, port != "", query != "", frag != "", name), "file URL", fmt.Sprintf("disqualifying components=%d", disq))
 }
 
+// propC19Decoy: a file URL (or absolute path) names a file below a directory
+// that does not exist at the file-system root, so opening exactly the decoded
+// path must fail. The working directory is prepared with decoy directories for
+// every path a sloppy decoder could turn the reference into (the path with its
+// leading slash or leading components dropped, cleaned, or with an encoded
+// slash decoded late), so that opening anything else than the decoded path
+// would succeed and create a file there.
+func propC19Decoy(t *rapid.T) {
+	c19Mu.Lock()
+	defer c19Mu.Unlock()
+	dir := c19Dir(t)
+	defer os.RemoveAll(dir)
+	cwd, err := os.Getwd()
+	if err != nil {
+		t.Fatalf("VERIF-INCONCLUSIVE getwd: %v", err)
+	}
+	if err := os.Chdir(dir); err != nil {
+		t.Fatalf("VERIF-INCONCLUSIVE chdir: %v", err)
+	}
+	defer os.Chdir(cwd)
+	first := rapid.SampledFrom([]string{"c:", "C:", "z:", "c:", "verif-no-such-dir", "~", ".hidden-verif-nx", "file:", "localhost", "stdout-nx"}).Draw(t, "firstComponent")
+	if _, err := os.Lstat("/" + first); err == nil {
+		t.Skip("component exists at the root")
+	}
+	mid := rapid.SampledFrom([]string{"", "logs", "logs/app", "..", "a/.."}).Draw(t, "middle")
+	name := rapid.SampledFrom([]string{"app.log", "stdout", "stderr", "x y.log", "p%q.log"}).Draw(t, "name")
+	decoded := "/" + first + "/"
+	if mid != "" {
+		decoded += mid + "/"
+	}
+	decoded += name
+	// decoys: every suffix of the component list, as a relative directory
+	comps := strings.Split(strings.TrimPrefix(filepath.Dir(decoded), "/"), "/")
+	for i := range comps {
+		var keep []string
+		for _, c := range comps[i:] {
+			if c != ".." && c != "." && c != "" {
+				keep = append(keep, c)
+			}
+		}
+		if len(keep) > 0 {
+			os.MkdirAll(filepath.Join(append([]string{dir}, keep...)...), 0o755)
+		}
+	}
+	form := rapid.SampledFrom([]string{"file://", "file://localhost", "FILE://", "plain", "file:"}).Draw(t, "form")
+	var raw string
+	if form == "plain" {
+		raw = decoded
+	} else {
+		u := url.URL{Path: decoded}
+		raw = form + u.EscapedPath()
+		if rapid.Bool().Draw(t, "encodeColon") {
+			raw = strings.Replace(raw, ":/", "%3A/", 1)
+			if !strings.Contains(raw, "%3A/") {
+				raw = form + u.EscapedPath()
+			}
+		}
+	}
+	so, se := os.Stdout, os.Stderr
+	fo, _ := os.Create(filepath.Join(dir, ".captured-stdout"))
+	fe, _ := os.Create(filepath.Join(dir, ".captured-stderr"))
+	os.Stdout, os.Stderr = fo, fe
+	before := listFiles(dir)
+	ws, closeFn, oerr := zap.Open(raw)
+	if oerr == nil {
+		ws.Write([]byte("decoy\n"))
+		ws.Sync()
+		closeFn()
+	}
+	os.Stdout, os.Stderr = so, se
+	fo.Close()
+	fe.Close()
+	after := listFiles(dir)
+	if len(after) != len(before) {
+		t.Fatalf("Open(%q) must open exactly the decoded path %q (which cannot be created: /%s does not exist); instead it created %v below the working directory", raw, decoded, first, after)
+	}
+	for _, f := range []string{".captured-stdout", ".captured-stderr"} {
+		if b, _ := os.ReadFile(filepath.Join(dir, f)); len(b) != 0 {
+			t.Fatalf("Open(%q) wrote to the standard stream instead of the decoded path %q", raw, decoded)
+		}
+	}
+	if oerr == nil {
+		os.Remove(decoded)
+		if c := filepath.Clean(decoded); filepath.Dir(c) == "/" {
+			os.Remove(c) // a cleaned path may have landed at the root
+		}
+		t.Fatalf("Open(%q) succeeded although its decoded path %q cannot be created", raw, decoded)
+	}
+	statCase("C19", true, fmt.Sprintf("decoy|%s|%s|%s|%s", form, first, mid, name), "file reference with decoy directories")
+}
+
 // propC19Relative: relative plain paths and relative file references must open
 // exactly the path as written (only the bare names stdout/stderr are special).
 func propC19Relative(t *rapid.T) {
@@ -690,6 +781,7 @@ func TestC19Open(t *testing.T)     { rapid.Check(t, propC19Open) }
 func TestC19URL(t *testing.T)      { rapid.Check(t, propC19URL) }
 func TestC19Raw(t *testing.T)      { rapid.Check(t, propC19Raw) }
 func TestC19Relative(t *testing.T) { rapid.Check(t, propC19Relative) }
+func TestC19Decoy(t *testing.T)    { rapid.Check(t, propC19Decoy) }
 func TestC19StdLog(t *testing.T)   { rapid.Check(t, propC19StdLog) }
 func TestC19Registry(t *testing.T) { rapid.Check(t, propC19Registry) }
 
